@@ -116,6 +116,17 @@ class VerifyMixin:
         walk(finfo.node.body)
         return dead
 
+    def dead_handler_lines(self, finfo, executed):
+        """`except` clauses of an executed try statement whose body no feasible path entered."""
+        import ast as _ast
+        out = []
+        for n in _ast.walk(finfo.node):
+            if isinstance(n, _ast.Try) and id(n) in executed:
+                for h in n.handlers:
+                    if h.body and id(h.body[0]) not in executed:
+                        out.append(h.lineno)
+        return sorted(set(out))
+
     def guarded_keys(self, st):
         """fields under a monitor of a shared object: every acquisition havocs them, callers never rely on them"""
         out = set()
@@ -265,6 +276,11 @@ class VerifyMixin:
             st.assume(fm)
         # vacuity guard: the precondition must be satisfiable
         self.oblige(st, 'vacuity.requires_sat', True, kind='cover', expect='sat')
+        entry_held = []
+        for lname in getattr(c, 'requires_held', ()):
+            lref = st.obj(self_val).fields[lname]
+            self.lock_acquire(lref, st, finfo.lineno)
+            entry_held.append(self.lock_of(lref, st).oid)
         pre = st.fork()
         self.tag_loops(finfo)
         st.env = env
@@ -283,9 +299,11 @@ class VerifyMixin:
                 n_normal += 1
                 res = o[1] if o[0] == 'return' else None
                 ctx = CallCtx(self, finfo, args, self_val, old or pre, s1, res, None, 0)
-                if s1.held:
+                if [l for l in s1.held if l not in entry_held]:
                     self.oblige(s1, 'lock.released_at_exit', False, kind='lock',
-                                note='returns while still holding ' + ','.join(self.lock_label(s1, l) for l in s1.held))
+                                note='returns while still holding ' + ','.join(self.lock_label(s1, l) for l in s1.held if l not in entry_held))
+                if any(l not in s1.held for l in entry_held):
+                    self.oblige(s1, 'lock.callers_lock_still_held_at_exit', False, kind='lock', note='releases a lock its caller holds')
                 for nm, f in list(c.ensures(ctx).items()) + list(c.checks(ctx).items()):
                     self.oblige(s1, f'post.{nm}', f, kind='post', line=finfo.lineno)
             elif o[0] == 'raise':
@@ -296,9 +314,9 @@ class VerifyMixin:
                     if key == exc.cls or (exc.cls != '$stored' and key != '$stored' and self.exc_is_subclass(exc.cls, key)):
                         handler = (key, fn)
                         break
-                if s1.held:
+                if [l for l in s1.held if l not in entry_held]:
                     self.oblige(s1, 'lock.released_at_raise', False, kind='lock',
-                                note='raises while still holding ' + ','.join(self.lock_label(s1, l) for l in s1.held))
+                                note='raises while still holding ' + ','.join(self.lock_label(s1, l) for l in s1.held if l not in entry_held))
                 if handler is None:
                     self.oblige(s1, f'raises.unexpected.{exc.cls}', False, kind='post', line=finfo.lineno,
                                 note=f'path raises {exc.cls} which the contract does not allow')
@@ -336,6 +354,7 @@ class VerifyMixin:
         # statements of the root that no feasible path reached: dead under the contract's preconditions / callee contracts.
         # Reported (evidence + DEAD-UNDER-CONTRACT lines), since an over-strong precondition makes clauses about them vacuous.
         dead = self.unreached_lines(finfo, self.executed_nodes)
+        self.dead_handlers.setdefault(c.target, []).append(set(self.dead_handler_lines(finfo, self.executed_nodes)))
         rep = self.dead_under_contract.setdefault('$paths', {})
         if n_normal == 0:
             rep.setdefault('roots_without_a_normal_return', []).append(c.target + suffix)
